@@ -10,7 +10,9 @@ import SaramaVerif.Model.OffsetMgr
     cm a <lk> <reply> [w mk p o m | w rs p o m]*                (Commit(): one attempt)
     cl [a <lk> <reply> [w ...]*]*                                (Close(): scripted final attempts)
   lk = 1 (lookup succeeds) | 0 | 2 (RefreshCoordinator / Coordinator fails);
-  reply = r<v0>,<v1>,... (v = KError code or x = missing) | e0 | e1 (connection error, not applied / applied).
+  reply = r<v0>,<v1>,... (v = KError code or x = missing) | e0 | e1 (connection dropped, not applied / applied)
+          | e2 (request swallowed, the client's read times out: for the model the same as e0).
+  Header `seqr` instead of `seq`: the harness uses the real sarama client (lookups cannot be scripted: lk = 1 only).
 
   Answer: the per-operation answers joined by " | ", each followed by the errors delivered and a dump of
   the whole state.
@@ -58,6 +60,7 @@ def parseVerdict (t : String) : Verdict := if t = "x" then .missing else .code (
 def parseReply (t : String) : Option Reply :=
   if t = "e0" then some (.connErr false)
   else if t = "e1" then some (.connErr true)
+  else if t = "e2" then some (.connErr false)
   else if t.startsWith "r" then some (.respond (((t.drop 1).toString.splitOn ",").map parseVerdict))
   else none
 
@@ -112,6 +115,7 @@ def closeTexts (ret : Bool) : Sys → List Attempt → List String
     else flushText ret s a :: closeTexts ret (run s (commitOps s a)) as
 
 structure Cfg where
+  real : Bool
   auto : Bool
   retryMax : Nat
   ret : Bool
@@ -159,6 +163,7 @@ def doOp (c : Cfg) (s : Sys) (closed : Bool) : List String → Option (Sys × Bo
     if s.active then none else
     match parseAttempts 64 rest with
     | some [a] =>
+      if c.real && !a.lk then none else
       let (s', es) := runErrs s (noErrs s) (commitOps s a)
       let (s'', t) := fin s' es ("cm " ++ flushText c.ret s a)
       some (s'', closed, t)
@@ -168,6 +173,7 @@ def doOp (c : Cfg) (s : Sys) (closed : Bool) : List String → Option (Sys × Bo
     match parseAttempts 64 rest with
     | some as =>
       if c.auto && as.length < c.retryMax + 1 then none else
+      if c.real && as.any (fun a => !a.lk) then none else
       let (s', es) := runErrs s (noErrs s) (closeOps s c.auto c.retryMax as)
       let txts := if c.auto then closeTexts c.ret (stepSys s .acloseAll) (as.take (c.retryMax + 1)) else []
       let (s'', t) := fin s' es ("cl " ++ " / ".intercalate (txts.filter (· ≠ "noreq")))
@@ -185,6 +191,7 @@ def doOp (c : Cfg) (s : Sys) (closed : Bool) : List String → Option (Sys × Bo
             ",".intercalate ((requestBlocks s1).map showOPair) else "noreq")
       some (s', closed, t)
   | ["lk", m] =>
+    if c.real && m ≠ "1" then none else
     if !s.active then
       let (s', t) := fin s (noErrs s) "idle"
       some (s', closed, t)
@@ -224,9 +231,10 @@ def doOps (c : Cfg) : Sys → Bool → List (List String) → List String → Op
 
 def step (_ : Unit) (t : List String) : Unit × String :=
   match splitSemi t with
-  | ["seq", auto, rmax, ret, ini, sts] :: segs =>
+  | [hd, auto, rmax, ret, ini, sts] :: segs =>
+    if hd ≠ "seq" && hd ≠ "seqr" then ((), "bad-op") else
     let stores := (sts.splitOn ",").map parseStore
-    let c : Cfg := { auto := auto = "1", retryMax := nat! rmax, ret := ret = "1", ini := int! ini }
+    let c : Cfg := { real := hd = "seqr", auto := auto = "1", retryMax := nat! rmax, ret := ret = "1", ini := int! ini }
     match doOps c (sinit stores) false segs [] with
     | some outs => ((), " | ".intercalate outs)
     | none => ((), "bad-op")
